@@ -174,6 +174,12 @@ pub fn profile(id: &str) -> Option<Profile> {
     if p.kind == Kind::Malformed {
         crate::malrun::mal_gen(&mut p);
     }
+    if p.kind == Kind::Backends {
+        crate::backrun::back_gen(&mut p);
+    }
+    if p.kind == Kind::Cli {
+        crate::clirun::cli_gen(&mut p);
+    }
     Some(p)
 }
 
